@@ -342,6 +342,27 @@ func CheckReport(gp *gen.Prof, c Conf, o *vk.Obs) []string {
 		sort.Strings(w2)
 		if fmt.Sprint(got) != fmt.Sprint(w1) && fmt.Sprint(got) != fmt.Sprint(w2) {
 			e.Addf("-topproto flat/cum pairs differ: want %v got %v", w2, got)
+		} else if fmt.Sprint(got) == fmt.Sprint(w2) {
+			// ... and every pair sits on the entry it belongs to: the function name and file the sample carries
+			var gotN, wantN []string
+			for _, s := range tp.Sample {
+				name, file := "", ""
+				if len(s.Location) == 1 && len(s.Location[0].Line) == 1 && s.Location[0].Line[0].Function != nil {
+					name, file = s.Location[0].Line[0].Function.Name, s.Location[0].Line[0].Function.Filename
+				}
+				gotN = append(gotN, fmt.Sprintf("%q %q %d/%d", name, file, s.Value[1], s.Value[0]))
+			}
+			for _, en := range mFine.Entries {
+				if en.Flat.V == 0 && en.Cum.V == 0 {
+					continue
+				}
+				wantN = append(wantN, fmt.Sprintf("%q %q %d/%d", en.F.Name, en.F.File, en.Flat.Val(), en.Cum.Val()))
+			}
+			sort.Strings(gotN)
+			sort.Strings(wantN)
+			if fmt.Sprint(gotN) != fmt.Sprint(wantN) {
+				e.Addf("-topproto: the entries (function name, file, flat/cum) differ:\n   want %v\n   got  %v", wantN, gotN)
+			}
 		}
 	case "callgrind":
 		for _, m := range CheckCallgrind(out, p, c, idx) {
